@@ -265,7 +265,19 @@ def run_recon(case, seed):
         lam2 = lam
     elif app_name == "TotalVariationRecon":
         kind, par = "l1", lam
-        Gm = dense.dense_linop(sp.linop.FiniteDifference(img))
+        # documented: G x = x - circshift(x, +1) along every axis, stacked (written out here, not taken from the library)
+        n_ = dense.prod(img)
+        blocks = []
+        for a_ in range(len(img)):
+            Pm = np.zeros((n_, n_))
+            idx = np.arange(n_).reshape(img)
+            Pm[np.roll(idx, 1, axis=a_).ravel() * 0 + np.arange(n_), np.roll(idx, 1, axis=a_).ravel()] = 1.0
+            blocks.append(np.eye(n_) - Pm)
+        Gm = np.vstack(blocks).astype(complex)
+        Glib = dense.dense_linop(sp.linop.FiniteDifference(img))
+        if Glib.shape != Gm.shape or not np.abs(Glib - Gm).max() <= 1e-12:
+            V("finite-difference-definition", "linop.FiniteDifference%s is not x - circshift(x, 1) per axis (max diff %.3g)" % (
+                img, float(np.abs(Glib - Gm).max()) if Glib.shape == Gm.shape else float("inf")))
     else:
         kind, par = "l1", lam
         W = sp.linop.Wavelet(img, wave_name="haar")
